@@ -144,8 +144,8 @@ pub fn sim_check(id: &str) -> Option<SimCheck> {
         "C01" => SimCheck {
             id: "C01",
             prof: Profile { gen: GenOpts { regen_pct: 15, ..sched_gen() }, fault_pct: 30, kill_pct: 2, ..base },
-            quick: 40_000,
-            thorough: 400_000,
+            quick: 160_000,
+            thorough: 2_000_000,
             rule: "random projects (diamonds, multi-output, order-only, phony chains, validation edges, pools, optional self-regenerating manifest) x edit/build histories x -j/-k x scripted completion order and failures; oracle: at every start no transitive producer is running/failed/out-of-date-and-unrun, and no step starts twice per manifest load. Non-trivial: >=2 commands ran concurrently and some command started after one of its producers ran in the same invocation; distinct by fingerprint of manifest+history+trace",
             assume: vec![],
             nontrivial: |s| s.nontrivial.contains("C01") && s.classes.contains("concurrent"),
@@ -153,8 +153,8 @@ pub fn sim_check(id: &str) -> Option<SimCheck> {
         "C02" => SimCheck {
             id: "C02",
             prof: Profile { fault_pct: 20, kill_pct: 5, ..base },
-            quick: 30_000,
-            thorough: 500_000,
+            quick: 150_000,
+            thorough: 2_000_000,
             rule: "histories of edits (modify/touch/back-date/delete sources, delete/touch/overwrite outputs, edit command or rspfile text, add/remove steps and edges, change include sets, move outputs) and invocations (target subsets, failing commands, killed n2); oracle after every exit-0 invocation: each wanted output has the content a clean build computes from the sources, and every wanted step that did not run is up to date by an independent model of the manifest rule. Non-trivial: a successful invocation that ran a non-empty proper subset of the wanted command steps",
             assume: vec!["a content change comes with an mtime change; nothing else writes the tree while n2 runs; phony outputs are not used as dirtying inputs (finding F8)", "no -t restat invocations (adopted outputs legitimately differ from a clean build)"],
             nontrivial: |s| s.nontrivial.contains("C02"),
@@ -162,8 +162,8 @@ pub fn sim_check(id: &str) -> Option<SimCheck> {
         "C03" => SimCheck {
             id: "C03",
             prof: Profile { restat_pct: 12, repeat_pct: 30, edits: [2, 4, 1, 1, 1, 0, 1, 1, 1, 2, 2, 1, 2, 1], fault_pct: 10, kill_pct: 2, ..base },
-            quick: 30_000,
-            thorough: 500_000,
+            quick: 150_000,
+            thorough: 2_000_000,
             rule: "as C02 plus repeated invocations without edits, neutral manifest restyling, order-only edits and -d ninja_compat -t restat; oracle: every started command is out of date by the independent model at the moment it starts, an invocation right after a successful one starts nothing and prints `n2: no work to do`, restat starts nothing. Non-trivial: an invocation that ran a proper non-empty subset of the wanted steps, or a restat invocation",
             assume: vec!["every declared output is written by its command"],
             nontrivial: |s| s.nontrivial.contains("C03"),
@@ -171,8 +171,8 @@ pub fn sim_check(id: &str) -> Option<SimCheck> {
         "C04" => SimCheck {
             id: "C04",
             prof: Profile { gen: GenOpts { wide: true, undeclared_pool_pct: 6, max_steps: 10, ..sched_gen() }, fault_pct: 20, kill_pct: 0, ..base },
-            quick: 40_000,
-            thorough: 400_000,
+            quick: 160_000,
+            thorough: 2_000_000,
             rule: "wide graphs with 0-2 declared pools (depth 0-3), console, default pool, undeclared pools; -j 1..4,16; scripted completion order and failures; oracle at every start: running <= j and per-pool running <= depth; undeclared pool => `unknown pool` error iff such a step needs to run; retrospective work-conservation so limits are not met by idling. Non-trivial: a pool was at its depth while another command ran, or -j was reached, or an unknown-pool error occurred",
             assume: vec![],
             nontrivial: |s| s.classes.contains("pool-at-depth") || s.classes.contains("j-at-limit") || s.nontrivial.contains("C04"),
@@ -180,8 +180,8 @@ pub fn sim_check(id: &str) -> Option<SimCheck> {
         "C05" => SimCheck {
             id: "C05",
             prof: Profile { gen: GenOpts { regen_pct: 10, ..sched_gen() }, fault_pct: 70, interrupt_pct: 8, kill_pct: 0, ..base },
-            quick: 40_000,
-            thorough: 400_000,
+            quick: 160_000,
+            thorough: 2_000_000,
             rule: "random failing subsets (plain failure, failure after scribbling on outputs, interruption) x -k absent/1/2/3/9 x -j x completion orders; oracle: no start after a failed producer, no log record for a failed command and it re-runs next time, budget semantics per phase, exit status 0 iff nothing failed. Non-trivial: a failure with other wanted steps still pending",
             assume: vec!["-k >= 1 (the property's domain); -k absent is treated as unlimited, which is what the code does"],
             nontrivial: |s| s.nontrivial.contains("C05"),
@@ -189,17 +189,17 @@ pub fn sim_check(id: &str) -> Option<SimCheck> {
         "C06" => SimCheck {
             id: "C06",
             prof: Profile { gen: GenOpts { regen_pct: 20, ..sched_gen() }, fault_pct: 30, kill_pct: 0, ..base },
-            quick: 40_000,
-            thorough: 400_000,
+            quick: 160_000,
+            thorough: 2_000_000,
             rule: "C01's graphs and schedules; oracle: no panic, no wait with nothing running, iteration budget, success => every wanted step decided and up to date, retrospective work conservation (a step that was startable at a blocking wait must not start later in that phase). Cyclic graphs are a separate part. Non-trivial: concurrent schedule in which a step started after a producer ran",
             assume: vec!["waiting forever is detected by the deterministic surrogate: a blocking wait with nothing running, or an iteration budget"],
-            nontrivial: |s| s.nontrivial.contains("C06") && s.classes.contains("concurrent"),
+            nontrivial: |s| s.nontrivial.contains("C06") && (s.classes.contains("concurrent") || s.classes.iter().any(|c| c.starts_with("cycle") || c == "validation-back-edge")),
         },
         "C09" => SimCheck {
             id: "C09",
             prof: Profile { gen: GenOpts { deps: true, ..GenOpts::default() }, edits: [1, 4, 1, 1, 3, 0, 1, 1, 1, 1, 6, 1, 1, 0], restat_pct: 6, fault_pct: 10, kill_pct: 2, ..base },
-            quick: 30_000,
-            thorough: 300_000,
+            quick: 150_000,
+            thorough: 1_500_000,
             rule: "histories in which reported dependency sets grow, shrink, are replaced, overlap declared and order-only inputs, are spelled differently, include files that later disappear; oracle: started sets agree with the model that replaces the list wholesale at every success (loaded lists compared at every manifest load), missing recorded dep => step runs and build still succeeds. Non-trivial: a history with an include-set change followed by a successful partial rebuild",
             assume: vec!["a command's include set changes only together with a change of something it already reads"],
             nontrivial: |s| s.nontrivial.contains("C02") && s.classes.contains("edit:includes"),
@@ -207,8 +207,8 @@ pub fn sim_check(id: &str) -> Option<SimCheck> {
         "C08" => SimCheck {
             id: "C08",
             prof: Profile { edits: [6, 2, 1, 0, 0, 0, 1, 0, 0, 2, 1, 4, 2, 8], fault_pct: 8, kill_pct: 2, repeat_pct: 10, ..base },
-            quick: 30_000,
-            thorough: 300_000,
+            quick: 150_000,
+            thorough: 1_500_000,
             rule: "sequences of manifests over a common name pool with builds in between: neutral edits (permute/restyle statements, rename rules and variables, comments, move statements into an included file, add/remove unrelated steps) and invalidating edits (move an output to another step, grow/shrink an output set); oracle: the records read back at every load equal the records written (names, order, hash), each is applied exactly to the step that alone produces all its outputs, started sets equal the model's dirty sets. Non-trivial: an invocation after a manifest edit in which at least one step stayed up to date and one ran",
             assume: vec![],
             nontrivial: |s| s.nontrivial.contains("C02") && (s.classes.contains("edit:restyle") || s.classes.contains("edit:move") || s.classes.contains("edit:remove") || s.classes.contains("edit:add") || s.classes.contains("edit:drop")),
@@ -216,8 +216,8 @@ pub fn sim_check(id: &str) -> Option<SimCheck> {
         "C17" => SimCheck {
             id: "C17",
             prof: Profile { gen: GenOpts { regen_pct: 100, alt_manifest_pct: 30, ..GenOpts::default() }, edits: [2, 3, 1, 0, 0, 0, 1, 0, 1, 4, 1, 3, 3, 2], fault_pct: 25, kill_pct: 0, unknown_target_pct: 0, ..base },
-            quick: 15_000,
-            thorough: 200_000,
+            quick: 120_000,
+            thorough: 1_500_000,
             rule: "self-regenerating manifests (also under -f): manifest edits are queued for the generator step, which rewrites the manifest when it runs; oracle: before the reload only the manifest's closure runs, after it every started step has the outputs/command of the new text and dirtiness follows the model under the new text, generator failure => nothing else runs, clean manifest => no reload. Non-trivial: an invocation that reloaded the manifest",
             assume: vec![],
             nontrivial: |s| s.classes.contains("reload"),
@@ -225,8 +225,8 @@ pub fn sim_check(id: &str) -> Option<SimCheck> {
         "C18" => SimCheck {
             id: "C18",
             prof: Profile { gen: GenOpts { defaults_pct: 40, builddir_pct: 30, alt_manifest_pct: 25, regen_pct: 10, ..GenOpts::default() }, target_pct: 75, unknown_target_pct: 12, use_c_pct: 30, fault_pct: 5, kill_pct: 0, ..base },
-            quick: 30_000,
-            thorough: 300_000,
+            quick: 150_000,
+            thorough: 1_500_000,
             rule: "graphs with independent components; targets = subsets of outputs/sources in varying spellings, none (with/without default statements), unknown names; -f/-C/builddir combinations; oracle: started subset of the closure, dirty closure fully started on success, unknown name => error and nothing built, .n2_db only at <dir>/<builddir>/.n2_db. Non-trivial: requested closure is a proper non-empty subset and something ran",
             assume: vec!["names that survive only in the log are not requested (listed finding F10)"],
             nontrivial: |s| s.nontrivial.contains("C02"),
@@ -234,8 +234,8 @@ pub fn sim_check(id: &str) -> Option<SimCheck> {
         "C19" => SimCheck {
             id: "C19",
             prof: Profile { gen: GenOpts { regen_pct: 20, ..sched_gen() }, fault_pct: 35, kill_pct: 0, ..base },
-            quick: 40_000,
-            thorough: 400_000,
+            quick: 160_000,
+            thorough: 2_000_000,
             rule: "C01/C05 cases with an observer on the Progress interface; oracle at every update: sum of counts = non-phony wanted steps of the phase, running = commands executing, failed = failures so far, finished counts monotone; summary line = number of successful commands. Non-trivial: a failure and concurrency in one invocation",
             assume: vec![],
             nontrivial: |s| s.classes.contains("failure") && s.classes.contains("concurrent"),
